@@ -172,17 +172,24 @@ fn kern(name: &str, len: usize) -> String {
     match r { Ok(0) => "ok".into(), Ok(_) => "nan".into(), Err(_) => "panic".into() }
 }
 
-fn hnsw(metric: &str, dim: usize, n: usize, k: usize, ef: usize, seed: u64) -> String {
+fn hnsw(metric: &str, dim: usize, n: usize, k: usize, ef: usize, seed: u64, m: usize) -> String {
     use kyrodb_engine::config::DistanceMetric;
     use kyrodb_engine::HnswVectorIndex;
     let dm = match metric { "l2" => DistanceMetric::Euclidean, "cos" => DistanceMetric::Cosine, "ip" => DistanceMetric::InnerProduct, _ => return "bad-op".into() };
     fence_on();
     let r = std::panic::catch_unwind(|| -> Result<String, String> {
-        let mut idx = HnswVectorIndex::new_with_distance(dim, n.max(1) + 4, dm).map_err(|e| format!("new:{e}"))?;
+        // m = 0: the default graph degree; otherwise the degree M is forced (record layout of the packed level-0 storage
+        // depends on it: cap = max(2M, 8) slots, padded to the record alignment)
+        let mut idx = if m == 0 {
+            HnswVectorIndex::new_with_distance(dim, n.max(1) + 4, dm)
+        } else {
+            HnswVectorIndex::new_with_params(dim, n.max(1) + 4, dm, m, 200, false)
+        }
+        .map_err(|e| format!("new:{e}"))?;
         let mut added = 0usize;
         for i in 0..n {
             let mut v = fill(seed.wrapping_add(i as u64 * 31 + 5), dim);
-            normalize(&mut v);
+            if !(m > 0 && metric == "l2") { normalize(&mut v); }      // forced-degree L2 runs keep scattered points (dimension 1 too)
             if idx.add_vector(i as u64, &v).is_ok() { added += 1; }
         }
         // wrong dimensions must be refused, never reach a kernel
@@ -224,7 +231,7 @@ pub fn run() {
         let res = match t[0] {
             "kernels" => simd_src::verif_kernels().iter().map(|(n, i, _)| format!("{n}:{i}")).collect::<Vec<_>>().join(" "),
             "kern" if t.len() == 3 => kern(t[1], t[2].parse().unwrap_or(0)),
-            "hnsw" if t.len() == 7 => hnsw(t[1], t[2].parse().unwrap_or(1), t[3].parse().unwrap_or(0), t[4].parse().unwrap_or(1), t[5].parse().unwrap_or(1), t[6].parse().unwrap_or(0)),
+            "hnsw" if t.len() == 7 || t.len() == 8 => hnsw(t[1], t[2].parse().unwrap_or(1), t[3].parse().unwrap_or(0), t[4].parse().unwrap_or(1), t[5].parse().unwrap_or(1), t[6].parse().unwrap_or(0), t.get(7).and_then(|x| x.parse().ok()).unwrap_or(0)),
             "blocks" => format!("{}", BLOCKS.load(Ordering::Relaxed)),
             _ => "bad-op".into(),
         };
